@@ -28,6 +28,13 @@ CONSTANTS MaxLen1,     \* first arrays of length 1..MaxLen1
           SeedSorted,  \* TRUE: unique() seeds from the smallest element (repaired); FALSE: from arr[0] (pinned)
           ShardCount,  \* the case space is cut into ShardCount parts by the first array (exports run side by side);
           ShardIndex,  \* this run enumerates part ShardIndex \in 0..ShardCount-1   (1, 0: everything)
+          LawLen,      \* the block law (L3) is checked for second-array blocks of length <= LawLen
+          GenN,        \* small generated arrays of length 1..GenN for the theorem about (L4)   (0: none)
+          ScaleN2,     \* scale cases: lengths of the second array of match ...
+          ScaleND,     \* ... and of the input of the de-duplication helpers   ({}: none)
+          ScaleReps,   \* scale cases per (element type, length)
+          ScaleBigStride, \* ... but only every ScaleBigStride-th (type, length) for lengths of 10^6 (1: all)
+          ScaleSeed,   \* rotates the choices of the scale design (the harness passes its seed)
           NReps,       \* representations attached to every case (0: the mechanism runs do not need them)
           DoExport
 
@@ -142,12 +149,6 @@ REnd ==
     /\ phase = "rscan" /\ st.i >= Len(c.a1)
     /\ st' = [out |-> AMRemResult(st)] /\ phase' = "rdone" /\ UNCHANGED c
 
-Next == ChooseA1 \/ ChooseA2 \/ ChooseArr \/ ChooseFlags
-        \/ MSort \/ MGuard \/ MSearch \/ MClamp \/ MFilter
-        \/ UBegin \/ UStep \/ UEnd \/ RBegin \/ RStep \/ REnd
-
-NextExport == ChooseA1 \/ ChooseA2 \/ ChooseArr \/ ChooseFlags \/ ChooseReps
-Spec == Init /\ [][Next]_vars
 
 \* ---- properties ------------------------------------------------------------------------
 \* the mechanisms refine the property
@@ -187,11 +188,170 @@ RefDedup == phase = "dcase" =>
                   vals |-> [k \in DOMAIN MaxFlagIdx(c.a1, c.f) |-> c.a1[MaxFlagIdx(c.a1, c.f)[k] + 1]]])
     /\ Len(c.a1) > 1 => ~Accept(c, [fn |-> "unique", err |-> "none", i1 |-> FirstIdx(c.a1) \o <<0>>, i2 |-> <<>>, vals |-> <<>>])
 
+\* ---- scale: the laws of ArrayMatch.tla, section "scale", as theorems on the small scope --------
+RevSeq(q) == [k \in DOMAIN q |-> q[Len(q) + 1 - k]]
+MkObs(i1, i2) == [fn |-> "match", err |-> "none", i1 |-> i1, i2 |-> i2, vals |-> <<>>]
+\* the reference result and results that deviate from it in one respect (the last one: the pairs
+\* sorted by VALUE of the second array instead of by position)
+ObsVariants(a1, a2) ==
+    LET r == AMRefMatch(a1, a2)
+        n == Len(r.i2)
+        p == VStableArgsort([k \in DOMAIN r.i2 |-> a2[r.i2[k] + 1]])
+    IN {MkObs(r.i1, r.i2), MkObs(RevSeq(r.i1), RevSeq(r.i2)), [MkObs(r.i1, r.i2) EXCEPT !.err = "rejected"],
+        MkObs([k \in DOMAIN r.i1 |-> r.i1[p[k]]], [k \in DOMAIN r.i2 |-> r.i2[p[k]]])} \cup
+       (IF n = 0 THEN {MkObs(<<0>>, <<0>>)}
+        ELSE {MkObs(Tail(r.i1), Tail(r.i2)), MkObs(<<r.i1[1]>> \o r.i1, <<r.i2[1]>> \o r.i2),
+              MkObs([r.i1 EXCEPT ![n] = (@ + 1) % Len(a1)], r.i2), MkObs(r.i1, [r.i2 EXCEPT ![1] = Len(a2)]),
+              MkObs(SubSeq(r.i1, 1, n - 1), SubSeq(r.i2, 1, n - 1))})
+
+\* (L1) the linear clauses say what the clauses of the statement say
+LinearAgrees == (phase = "mcase" /\ ~AMHasRepeats(c.a1)) =>
+    \A o \in ObsVariants(c.a1, c.a2) :
+        AMLinMatchFailing(LAMBDA i : c.a1[i], Len(c.a1), LAMBDA v : v \in VRange(c.a1), LAMBDA j : c.a2[j], Len(c.a2), o)
+          = AMMatchFailing(c.a1, c.a2, o)
+
+\* (L2) matching distributes over concatenation of the second array
+ConcatLaw == (phase = "mcase" /\ ~AMHasRepeats(c.a1)) =>
+    \A k \in 0..Len(c.a2) :
+        LET x == SubSeq(c.a2, 1, k)  y == SubSeq(c.a2, k + 1, Len(c.a2))
+        IN AMRefMatch(c.a1, c.a2) = AMCat(AMRefMatch(c.a1, x), AMShift(AMRefMatch(c.a1, y), k))
+
+\* (L3) a periodic second array (block c.a2 repeated r times, then its first t elements): a result is
+\* accepted by the clauses of the statement iff its block run-length encoding is accepted by
+\* AMBlockMatchFailing; an accepted result has at most two entries; a cut encoding is never accepted
+RECURSIVE Power(_, _)
+Power(b, r) == IF r = 0 THEN <<>> ELSE b \o Power(b, r - 1)
+BlockJudgeAgrees == (phase = "mcase" /\ ~AMHasRepeats(c.a1) /\ Len(c.a2) <= LawLen) =>
+    \A r \in 0..2 : \A t \in 0..(Len(c.a2) - 1) : (r + t > 0) =>
+        LET big == Power(c.a2, r) \o SubSeq(c.a2, 1, t)
+            P == Len(c.a2)
+        IN \A o \in ObsVariants(c.a1, big) :
+              LET rle == AMBlockRLE(o.i1, o.i2, P)
+                  enc == [fn |-> "match", err |-> o.err, nrle |-> Len(rle), rle |-> rle]
+                  blockf == AMBlockMatchFailing(LAMBDA i : c.a1[i], Len(c.a1), LAMBDA v : v \in VRange(c.a1),
+                                                LAMBDA j : c.a2[j], P, r, t, enc)
+                  exact == AMMatchFailing(c.a1, big, o)
+              IN /\ (blockf = {}) <=> (exact = {})
+                 /\ exact = {} => Len(rle) <= 2
+                 /\ "not_ordered_by_second_array" \in exact => "not_ordered_by_second_array" \in blockf
+                 /\ Len(rle) > 1 =>
+                      AMBlockMatchFailing(LAMBDA i : c.a1[i], Len(c.a1), LAMBDA v : v \in VRange(c.a1),
+                                          LAMBDA j : c.a2[j], P, r, t, [enc EXCEPT !.rle = SubSeq(@, 1, 1)]) # {}
+
+\* (L4) small generated arrays: the counting clauses agree with the clauses of the statement
+ChooseGen ==
+    /\ phase = "start" /\ GenN > 0
+    /\ \E n \in 1..GenN : \E w \in 1..VMin2(n, 3) : \E s \in 0..(w - 1) : \E struct \in {"cyclic", "runs"} : \E stp \in 1..2 :
+       \E wf \in 1..3 : \E mf \in {x \in 1..2 : AMGcd1(x, wf)} : \E sf \in 0..(wf - 1) :
+          st' = [ga |-> [n |-> n, w |-> w, m |-> 1, s |-> s, o |-> 2, st |-> stp, rev |-> FALSE, struct |-> struct],
+                 gf |-> [n |-> n, w |-> wf, m |-> mf, s |-> sf, o |-> 1, st |-> 1, rev |-> FALSE]]
+    /\ phase' = "gcase" /\ UNCHANGED c
+
+DObs(fn, i1, vals) == [fn |-> fn, err |-> "none", i1 |-> i1, i2 |-> <<>>, vals |-> vals]
+GenDedupAgrees == phase = "gcase" =>
+    LET a == [i \in 1..st.ga.n |-> AMGenArrAt(st.ga, i)]
+        f == AMGenSeq(st.gf)
+        first == FirstIdx(a)
+        best == MaxFlagIdx(a, f)
+        vals(idx) == [k \in DOMAIN idx |-> a[idx[k] + 1]]
+        idxs == {first, best, RevSeq(first), Tail(first), first \o <<0>>, [first EXCEPT ![1] = st.ga.n],
+                 [first EXCEPT ![1] = (@ + 1) % st.ga.n], [best EXCEPT ![Len(best)] = (@ + st.ga.n - 1) % st.ga.n]}
+    IN /\ AMGenArrOK(st.ga) /\ AMGenOK(st.gf)
+       /\ \A i \in 1..st.ga.n : AMGenClassPositions(st.ga, AMGenClass(st.ga, i)) = {j \in 1..st.ga.n : a[j] = a[i]}
+       /\ AMGenNClasses(st.ga) = Cardinality(VRange(a))
+       /\ \A i \in 1..st.ga.n : {f[p] : p \in AMGenClassHead(st.ga, AMGenClass(st.ga, i), st.gf.w)}
+                                   = {f[p] : p \in AMGenClassPositions(st.ga, AMGenClass(st.ga, i))}
+       /\ \A idx \in idxs :
+            /\ AMGenDedupFailing(st.ga, st.gf, DObs("unique", idx, <<>>)) = AMUniqueFailing(a, DObs("unique", idx, <<>>))
+            /\ AMGenDedupFailing(st.ga, st.gf, DObs("rem_dup", idx, <<>>)) = AMRemDupFailing(a, f, DObs("rem_dup", idx, <<>>))
+            /\ AMIdxInRange(idx, st.ga.n) =>
+                 /\ AMGenDedupFailing(st.ga, st.gf, DObs("rem_dup_values", idx, vals(idx)))
+                      = AMRemDupValuesFailing(a, f, DObs("rem_dup_values", idx, vals(idx)))
+                 /\ AMGenDedupFailing(st.ga, st.gf, DObs("unique_values", <<>>, vals(idx)))
+                      = AMUniqueValuesFailing(a, DObs("unique_values", <<>>, vals(idx)))
+                 /\ AMGenDedupFailing(st.ga, st.gf, DObs("rem_dup_values", idx, RevSeq(vals(idx))))
+                      = AMRemDupValuesFailing(a, f, DObs("rem_dup_values", idx, RevSeq(vals(idx))))
+
+\* ---- scale cases: a handful per run, for every element type and every length -------------------
+\* (number of distinct values, step) of a DENSE first array: most of them span more than half of
+\* a narrow type's range; lengths ScaleN2 / ScaleND lie at and across 2^10, 2^16, 10^6, 2^20
+N2Seq == VSortSet(ScaleN2)
+NDSeq == VSortSet(ScaleND)
+DensePairs(size) ==
+    IF size = 256 THEN <<<<33, 4>>, <<64, 3>>, <<129, 1>>, <<64, 4>>, <<200, 1>>, <<256, 1>>, <<40, 2>>>>
+    ELSE IF size = 65536 THEN <<<<8193, 4>>, <<16385, 3>>, <<40000, 1>>, <<65536, 1>>, <<20001, 2>>, <<8193, 1>>>>
+    ELSE <<<<5, 2>>, <<1000, 1>>, <<50021, 1>>, <<1000, 3>>, <<20011, 4>>, <<17, 1>>>>
+CoprimeFrom(w) == CHOOSE x \in {7, 11, 13, 17, 19, 23} : AMGcd1(x, w) /\ \A y \in {7, 11, 13, 17, 19, 23} : AMGcd1(y, w) => x <= y
+ScaleRep(t1, t2, p1, p2, rot) ==
+    LET l1 == AMPick(AMArrayLayouts, rot)   l2 == AMPick(AMArrayLayouts, rot \div 5 + rot)
+    IN [t1 |-> t1, t2 |-> t2, p1 |-> p1, p2 |-> p2, l1 |-> l1, l2 |-> l2,
+        o1 |-> AMPick(AMOrdersFor(t1, l1), rot \div 3), o2 |-> AMPick(AMOrdersFor(t2, l2), rot \div 2)]
+
+ScaleMatchCase(ti, ni, k) ==
+    LET t1 == AMScaleTypes[ti]          n2 == N2Seq[ni]
+        size == AMTypeSize(t1)
+        rot == ti + ni + 3 * k + ScaleSeed
+        pr == AMPick(DensePairs(size), rot)
+        n1 == pr[1]   stp == pr[2]   span == stp * (n1 - 1) + 1
+        anchor == AMPick(<<"bottom", "mid", "top">>, ti + 2 * ni + k + ScaleSeed)
+        o1 == IF size = 0 \/ anchor = "bottom" THEN 1 ELSE IF anchor = "top" THEN size - span + 1 ELSE (size - span) \div 2 + 1
+        order == AMPick(<<"asc", "scr", "desc">>, 2 * ti + ni + k + ScaleSeed)
+        g1 == [n |-> n1, w |-> n1, m |-> IF order = "scr" THEN CoprimeFrom(n1) ELSE 1,
+               s |-> IF order = "scr" THEN n1 \div 3 ELSE 0, o |-> o1, st |-> stp, rev |-> order = "desc"]
+        t2 == AMPick(AMScalePartners(t1), ti + ni + 2 * k + ScaleSeed)
+        hi1 == o1 + span - 1
+        lo2 == IF size > 0 THEN (IF AMCanBelow(t1, t2) THEN o1 - 3 ELSE VMax2(1, o1 - 3))
+               ELSE (IF anchor = "bottom" THEN 1 ELSE -2)
+        hi2 == IF size > 0 THEN (IF AMCanAbove(t1, t2) THEN hi1 + 3 ELSE VMin2(size, hi1 + 3))
+               ELSE (IF anchor = "top" THEN hi1 ELSE hi1 + 3)
+        \* the second array probes at most ~1000 values from lo2 to hi2 (every value when the span is below
+        \* that, else every st2-th from a phase that rotates): its period, the block of law (L3), stays small
+        st2 == (hi2 - lo2 + 1024) \div 1024
+        ph == (ScaleSeed + ni + k) % st2
+        w2 == (hi2 - lo2 - ph) \div st2 + 1
+        g2 == [n |-> n2, w |-> w2, m |-> CoprimeFrom(w2), s |-> w2 \div 2, o |-> lo2 + ph, st |-> st2, rev |-> FALSE]
+        p1 == IF size > 0 THEN "dense-bottom" ELSE "dense-" \o anchor
+    IN [kind |-> "smatch", g1 |-> g1, g2 |-> g2, rep |-> ScaleRep(t1, t2, p1, p1, rot)]
+
+ScaleDedupCase(ti, ni, k) ==
+    LET t1 == AMScaleTypes[ti]          n == NDSeq[ni]
+        size == AMTypeSize(t1)
+        rot == ti + ni + 3 * k + ScaleSeed
+        pr == AMPick(DensePairs(size), rot)
+        w == VMin2(VMin2(pr[1], n), 2048)   stp == pr[2]   span == stp * (w - 1) + 1
+        anchor == AMPick(<<"bottom", "mid", "top">>, ti + 2 * ni + k + ScaleSeed)
+        o1 == IF size = 0 \/ anchor = "bottom" THEN 1 ELSE IF anchor = "top" THEN size - span + 1 ELSE (size - span) \div 2 + 1
+        ga == [n |-> n, w |-> w, m |-> 1, s |-> IF (rot % 2) = 0 THEN w \div 3 ELSE 0, o |-> o1, st |-> stp, rev |-> FALSE,
+               struct |-> AMPick(<<"cyclic", "runs">>, ni + k + ScaleSeed)]
+        t2 == AMPick(AMFlagTypes, 2 * ti + ni + k + ScaleSeed)
+        wf == IF t2 = "b1" THEN 2 ELSE AMPick(<<3, 8, 200, 2, 1>>, rot)
+        gf == [n |-> n, w |-> wf, m |-> CoprimeFrom(wf), s |-> wf \div 2, o |-> 1, st |-> 1, rev |-> FALSE]
+        p1 == IF size > 0 THEN "dense-bottom" ELSE "dense-" \o anchor
+    IN [kind |-> "sdedup", ga |-> ga, gf |-> gf, rep |-> ScaleRep(t1, t2, p1, AMPick(AMBasicPlaces, rot), rot)]
+
+ChooseScale ==
+    /\ phase = "start" /\ DoExport /\ ShardIndex = 0
+    /\ \E ti \in DOMAIN AMScaleTypes : \E k \in 1..ScaleReps :
+          \/ \E ni \in DOMAIN N2Seq : /\ (IF N2Seq[ni] < 900000 THEN TRUE ELSE (ti + ni + k + ScaleSeed) % ScaleBigStride = 0)
+                                       /\ st' = ScaleMatchCase(ti, ni, k)
+          \/ \E ni \in DOMAIN NDSeq : st' = ScaleDedupCase(ti, ni, k)
+    /\ phase' = "scase" /\ UNCHANGED c
+\* every scale case of the design is admitted
+ScaleDesignOK == phase = "scase" => AMScaleRepOK(st, st.rep)
+
 \* every representation the design attaches is admitted for its case
 RepDesignOK == phase \in {"mrep", "drep"} => \A k \in DOMAIN c.reps : AMRepOK(c, c.reps[k])
 
+Next == ChooseA1 \/ ChooseA2 \/ ChooseArr \/ ChooseFlags
+        \/ MSort \/ MGuard \/ MSearch \/ MClamp \/ MFilter
+        \/ UBegin \/ UStep \/ UEnd \/ RBegin \/ RStep \/ REnd \/ ChooseGen
+
+NextExport == ChooseA1 \/ ChooseA2 \/ ChooseArr \/ ChooseFlags \/ ChooseReps \/ ChooseScale
+Spec == Init /\ [][Next]_vars
+
 \* ---- export ----------------------------------------------------------------------------
-Export == (DoExport /\ phase \in {"mrep", "drep"}) => PrintT(<<"CASE", ToJson(c)>>)
+Export == /\ (DoExport /\ phase \in {"mrep", "drep"}) => PrintT(<<"CASE", ToJson(c)>>)
+          /\ (DoExport /\ phase = "scase") => PrintT(<<"SCALE", ToJson(st)>>)
 
 \* the admitted choices, for the adapter's covering guard (printed once per run)
 DesignRecord ==
